@@ -105,7 +105,8 @@ def termToJson : Prep.Term → Json
       ("Wn", match wn with | .one w => Json.arr #[ratToJson w] | .two a b => Json.arr #[ratToJson a, ratToJson b]),
       ("order", Json.num (o : Int)), ("btype", btypeStr bt), ("t", termToJson t)]
 
-def errStr : Err → String | .typeError => "TypeError" | .valueError => "ValueError"
+def errStr : Err → String
+  | .typeError => "TypeError" | .valueError => "ValueError" | .zeroDivisionError => "ZeroDivisionError"
 
 def sBoundToJson (b : SBound) : Json :=
   Json.mkObj [("data", termToJson b.data), ("fs", ratToJson b.fs), ("dt", ratToJson b.dt)]
